@@ -220,7 +220,9 @@ func Run[C any](t *testing.T, p Prop[C]) {
 		if nt {
 			Ev.Sample(map[string]any{"test": p.Name, "case": c})
 		}
+		stop := Watchdog(p.Name, c, HangTimeout) // every check is also a termination check
 		v := safeCheck(p.Check, c)
+		stop()
 		if v == nil {
 			return
 		}
